@@ -43,6 +43,15 @@ def c10_jobs(rng, quick):
     for (sym, api, p, sample) in entry_points():
         s = onedim.U(sample)
         mid = len(s) // 2
+        # truncation aliases of the sample's own characters: runes whose low byte (U+01xx, U+04xx, U+FFxx) or low seven bits (U+00xx | 0x80) equal an
+        # accepted character - an encoder that narrows runes to bytes would take them for that character
+        alias = []
+        for ch in sorted(set(sample))[:: (2 if quick else 1)]:
+            if ord(ch) < 0x80:
+                alias += [onedim.U(chr(0x100 + ord(ch))), onedim.U(chr(0x400 + ord(ch))), onedim.U(chr(0xFF00 + ord(ch))), onedim.U(chr(0x80 + ord(ch))), onedim.U(chr(0x10000 + ord(ch)))]
+        for sp in alias:
+            add(sym, api, p, s[:mid] + sp + s[mid + 1:])
+            add(sym, api, p, s[:-1] + sp)
         for b in range(0, 256, 1 if not quick or sym in ("c128", "c39", "c93", "ean", "25", "codabar") else 3):
             add(sym, api, p, [b])
             add(sym, api, p, s[:mid] + [b] + s[mid + 1:])
